@@ -616,12 +616,15 @@ func (sm *SeatManager) Next() error {
 	sm.mu.Lock()
 	defer sm.mu.Unlock()
 
+	prevDealer := sm.dealer
+
 	if sm.nextDealer() == nil {
 		return ErrInsufficientNumberOfPlayers
 	}
 
-	// Waiting players have been let in: still nobody to play against
+	// Waiting players have been let in: still nobody to play against, the button stays where it was
 	if sm.getPlayableSeatCount() < 2 {
+		sm.dealer = prevDealer
 		return ErrInsufficientNumberOfPlayers
 	}
 
